@@ -971,9 +971,13 @@ impl<'a> ActiveFileSet<'a> {
     }
 
     fn apply_retention(&mut self, fs: impl Filesystem, max_files: usize) {
-        while self.file_set.len() >= max_files {
+        while self.file_set.len() > max_files {
+            let Some(file_name) = self.file_set.pop() else {
+                break;
+            };
+
             let mut path = PathBuf::from(self.dir);
-            path.push(self.file_set.pop().unwrap());
+            path.push(file_name);
 
             if let Err(err) = fs.remove_file(&path) {
                 self.metrics.file_delete_failed.increment();
